@@ -104,6 +104,12 @@ Definition decide_leaf (c : cfg) (s1 s2 : bst) (p : Z) (bad : bool) (B T : Z) : 
       else []
   end.
 
+(* one iteration of the window-sum loop `for _, c := range counters`: uint64 accumulation of the
+   bucket's two counters (a, b) into (bad, total) *)
+Definition sum_step (s t a b : Z) : Z * Z := (u64 (s + a), u64 (t + b)).
+Fixpoint sum_loop (l : list (Z * Z)) (acc : Z * Z) : Z * Z :=
+  match l with [] => acc | (a, b) :: r => sum_loop r (sum_step (fst acc) (snd acc) a b) end.
+
 Definition adds_leaf (bad : bool) : list bact := (if bad then [AAddBad] else []) ++ [AAddTotal].
 
 (* cur_ok: currentCounter() returned no error *)
